@@ -95,6 +95,10 @@ func QuoteOrNIL(str string) string {
 	if str == "" {
 		return "NIL"
 	}
+	// A quoted string cannot carry CR, LF or NUL: such a value is sent as a literal instead
+	if strings.ContainsAny(str, "\r\n\x00") {
+		return fmt.Sprintf("{%d}\r\n%s", len(str), str)
+	}
 	// Escape special characters per IMAP spec
 	str = strings.ReplaceAll(str, "\\", "\\\\")
 	str = strings.ReplaceAll(str, "\"", "\\\"")
